@@ -504,7 +504,7 @@ def expiry(rep, cx):
             vcell = T.cells.get(mem.off_key(s2, ('add', base, C(cx.foff('valid')))))
             cleared = vcell is not None and s2.canon(vcell[1]) == ZERO
             la = cx.field(s2, base, 'last_activity_ts', 8)
-            clocks = [('sym', 'clock.s.%d' % i, 1, 1 << 63) for i in range(s2.tags.get('clk.s', 0))]
+            clocks = [('sym', 'clock.s.%d' % i, 0, 1 << 63) for i in range(s2.tags.get('clk.s', 0))]
             cnt = cx.tfield(s2, 'count')
             lim = ('add', la, C(oracle.SESSION_EXPIRY_S))
             if cleared:
@@ -537,7 +537,7 @@ def expiry(rep, cx):
                 b = cx.eoff + j * cx.esz
                 t.cells[((), b + cx.foff('valid'))] = (1, C(1))
                 t.cells[((), b + cx.foff('last_activity_ts'))] = (8, LA)
-                clk = ('sym', 'clock.s.0', 1, 1 << 63)
+                clk = ('sym', 'clock.s.0', 0, 1 << 63)
                 lim = lin_of(('add', LA, C(oracle.SESSION_EXPIRY_S)))
                 if late:
                     f = lim.add(lin_of(clk), -1)
@@ -572,7 +572,7 @@ def expiry(rep, cx):
                     t = mk_obj(st, 'T', cx.trec.size, kind='heap', default='zero', heap=True)
                     t.zeroed_n = t.size
                     t.cells[((), cx.toff('count'))] = (1, C(2))
-                    clk = ('sym', 'clock.s.0', 1, 1 << 63)
+                    clk = ('sym', 'clock.s.0', 0, 1 << 63)
                     for j, stamp, late in ((j1, LA, late1), (j2, LB, late2)):
                         b = cx.eoff + j * cx.esz
                         t.cells[((), b + cx.foff('valid'))] = (1, C(1))
